@@ -83,6 +83,7 @@ type propMeta struct {
 	Shards           int
 	DeathIsViolation bool
 	RacePass         bool
+	AppRacePass      bool
 }
 
 func die(code int, format string, a ...interface{}) {
@@ -413,6 +414,22 @@ func main() {
 		case err != nil:
 			cleanup()
 			die(2, "HARNESS-ERROR: race pass failed to run:\n%s", tail(out, 3000))
+		}
+	}
+	// C05, C08: free-running pass of the real program built with the race detector (see apprace.go)
+	if meta.AppRacePass && replayFile == "" {
+		ri, rv := appRacePass(id, repo, bdir)
+		raceInfo = ri
+		if e, bad := ri["error"]; bad {
+			cleanup()
+			die(2, "HARNESS-ERROR: %v", e)
+		}
+		for _, v := range rv {
+			if id == "C08" && !strings.Contains(v.Sig, "does-not-terminate") {
+				continue // data races and differing outcomes are C05's business
+			}
+			violCount[v.Sig]++
+			viols = append(viols, v)
 		}
 	}
 	// classify violations
